@@ -58,7 +58,7 @@ func genC20(verifSeed int64, tier string, idx int) *core.Scenario {
 	}
 	if sp.DirState == "exists" && r.Intn(3) == 0 {
 		// leftovers: an earlier store of the same identifier died at some point
-		sp.Pre = append(sp.Pre, Step{K: "CrashedStore", D: 2, ID: 0, Dmg: fmt.Sprint(r.Intn(1 << 20))})
+		sp.Pre = append(sp.Pre, Step{K: "CrashedStore", D: 2, ID: 0, Dmg: fmt.Sprint(r.Intn(1 << 20)), NoClobber: r.Intn(2) == 0})
 	}
 	if sp.DirState == "exists" && r.Intn(4) == 0 {
 		// ... or an earlier store of ANOTHER identifier died (its leftovers must not matter to anyone else)
@@ -144,7 +144,7 @@ func execC20(sc *core.Scenario) *core.Result {
 			simos.Mount(scratch)
 			e0 := &env{sp: sp, res: res, disk: scratch, docs: docs}
 			e0.fs = &storage.FileSystem{Options: storage.FileSystemOptions{Path: sp.Path}}
-			verifsim.Run(sc.Sched, []func(*verifsim.Task){func(*verifsim.Task) { e0.store(proto.Clone(doc).(*sbom.Document), false, "fs") }})
+			verifsim.Run(sc.Sched, []func(*verifsim.Task){func(*verifsim.Task) { e0.store(proto.Clone(doc).(*sbom.Document), st.NoClobber, "fs") }})
 			n := scratch.NEvents
 			if n == 0 {
 				n = 1
@@ -155,7 +155,7 @@ func execC20(sc *core.Scenario) *core.Result {
 			simos.Mount(pre)
 			e1 := &env{sp: sp, res: res, disk: pre, docs: docs}
 			e1.fs = &storage.FileSystem{Options: storage.FileSystemOptions{Path: sp.Path}}
-			verifsim.Run(sc.Sched, []func(*verifsim.Task){func(*verifsim.Task) { e1.store(proto.Clone(doc).(*sbom.Document), false, "fs") }})
+			verifsim.Run(sc.Sched, []func(*verifsim.Task){func(*verifsim.Task) { e1.store(proto.Clone(doc).(*sbom.Document), st.NoClobber, "fs") }})
 			pre.ResetPlan()
 			simos.Mount(pre)
 			if st.ID%len(sp.IDs) == 0 {
